@@ -114,7 +114,66 @@ fn snap(pc: usize, ptr: i64, t: &Tape, inpos: usize) -> Snap {
 /// Run `code` canonically. `detect_cycles` enables Brent cycle detection on exact states
 /// (checked at every executed `]`).
 pub fn run(code: &[u8], width: Width, script: &[u8], step_cap: u64, detect_cycles: bool) -> Canon {
+    run_opt(code, width, script, step_cap, detect_cycles, false)
+}
+
+/// A balanced innermost loop over `+-<>` only whose own cell changes by -1 or +1 per iteration:
+/// its effect after n iterations is known in closed form (textbook counted loop).
+struct SimpleLoop {
+    /// (offset from the loop cell, change per iteration), loop cell excluded
+    deltas: Vec<(i64, i64)>,
+    /// -1 or +1
+    cell_delta: i64,
+    lo: i64,
+    hi: i64,
+    body_len: u64,
+}
+
+fn simple_loops(code: &[u8], jump: &[usize]) -> Vec<Option<SimpleLoop>> {
+    let mut v: Vec<Option<SimpleLoop>> = (0..code.len()).map(|_| None).collect();
+    for i in 0..code.len() {
+        if code[i] != b'[' || jump[i] == usize::MAX {
+            continue;
+        }
+        let end = jump[i];
+        let mut off = 0i64;
+        let mut map: std::collections::BTreeMap<i64, i64> = std::collections::BTreeMap::new();
+        let (mut lo, mut hi) = (0i64, 0i64);
+        let mut ok = true;
+        let mut len = 0u64;
+        for &c in &code[i + 1..end] {
+            match c {
+                b'+' => *map.entry(off).or_insert(0) += 1,
+                b'-' => *map.entry(off).or_insert(0) -= 1,
+                b'>' => {
+                    off += 1;
+                    hi = hi.max(off);
+                }
+                b'<' => {
+                    off -= 1;
+                    lo = lo.min(off);
+                }
+                b'.' | b',' | b'[' | b']' => {
+                    ok = false;
+                    break;
+                }
+                _ => continue,
+            }
+            len += 1;
+        }
+        let cd = map.get(&0).copied().unwrap_or(0);
+        if ok && off == 0 && (cd == -1 || cd == 1) {
+            map.remove(&0);
+            v[i] = Some(SimpleLoop { deltas: map.into_iter().filter(|x| x.1 != 0).collect(), cell_delta: cd, lo, hi, body_len: len });
+        }
+    }
+    v
+}
+
+/// `accel`: close simple counted loops in one step (validated against the naive mode by C04).
+pub fn run_opt(code: &[u8], width: Width, script: &[u8], step_cap: u64, detect_cycles: bool, accel: bool) -> Canon {
     let (jump, _) = bracket_table(code);
+    let simple = if accel { simple_loops(code, &jump) } else { Vec::new() };
     let mask = width.mask();
     let mut t = Tape::new();
     let mut ptr: i64 = 0;
@@ -136,11 +195,13 @@ pub fn run(code: &[u8], width: Width, script: &[u8], step_cap: u64, detect_cycle
     let mut tortoise: Option<(Snap, usize, u64)> = None;
     let mut power = 1u64;
     let mut lam = 0u64;
+    let mut dispatched = 0u64;
     while pc < code.len() {
-        if c.steps >= step_cap {
+        if dispatched >= step_cap {
             c.verdict = Verdict::Unknown;
             return c;
         }
+        dispatched += 1;
         let ch = code[pc];
         match ch {
             b'+' => {
@@ -176,20 +237,37 @@ pub fn run(code: &[u8], width: Width, script: &[u8], step_cap: u64, detect_cycle
                     inpos += 1;
                 }
             }
+            b'[' if accel && simple[pc].is_some() && { let s = t.slot(ptr); t.cells[s] != 0 } => {
+                let sl = simple[pc].as_ref().unwrap();
+                let s = t.slot(ptr);
+                let v = t.cells[s];
+                let n = if sl.cell_delta == -1 { v } else { v.wrapping_neg() & mask };
+                for &(off, d) in &sl.deltas {
+                    let q = t.slot(ptr + off);
+                    t.cells[q] = t.cells[q].wrapping_add(n.wrapping_mul(d as u64)) & mask;
+                }
+                let s = t.slot(ptr);
+                t.cells[s] = 0;
+                c.pmin = c.pmin.min(ptr + sl.lo);
+                c.pmax = c.pmax.max(ptr + sl.hi);
+                c.bracket_execs = c.bracket_execs.saturating_add(n.saturating_add(1));
+                c.steps = c.steps.saturating_add(n.saturating_mul(sl.body_len + 1));
+                pc = jump[pc];
+            }
             b'[' => {
-                c.bracket_execs += 1;
+                c.bracket_execs = c.bracket_execs.saturating_add(1);
                 let s = t.slot(ptr);
                 if t.cells[s] == 0 {
                     if jump[pc] == usize::MAX {
                         // unmatched '[' skipped to the end of the text: the program ends
-                        c.steps += 1;
+                        c.steps = c.steps.saturating_add(1);
                         return c;
                     }
                     pc = jump[pc];
                 }
             }
             b']' => {
-                c.bracket_execs += 1;
+                c.bracket_execs = c.bracket_execs.saturating_add(1);
                 if jump[pc] == usize::MAX {
                     c.verdict = Verdict::Stuck;
                     return c;
@@ -206,7 +284,7 @@ pub fn run(code: &[u8], width: Width, script: &[u8], step_cap: u64, detect_cycle
                                 c.pre = *at;
                                 c.cyc = c.trace.len() - *at;
                                 c.steps_to_cycle = *st;
-                                c.steps += 1;
+                                c.steps = c.steps.saturating_add(1);
                                 return c;
                             }
                         }
@@ -225,7 +303,7 @@ pub fn run(code: &[u8], width: Width, script: &[u8], step_cap: u64, detect_cycle
                 continue;
             }
         }
-        c.steps += 1;
+        c.steps = c.steps.saturating_add(1);
         pc += 1;
     }
     c
